@@ -1385,25 +1385,17 @@ theorem unpackK_rel {lo hi : Lim} (h : Lim.le lo hi) (c : ECfg) (C : Ctx) (nm : 
     {s s' : VL × Option LErr} (hs : RelS s s') :
     RelR RelO
       (do measureEach lo (nm.1.map (sizeofV c))
-          match (if s.1.length < nm.2.length + 1 then s.2 else none) with
+          match (if nm.2.length = 0 || s.1.length < nm.2.length + 1 then s.2 else none) with
           | some er => (.error er : RL ObjL)
           | none =>
-            if nm.2.length = 0 then
-              match s.2 with
-              | some er =>
-                if isLim er then .error er else pure (.ctx ({ vars := Eval.bindNamed [] (Eval.bindPos 1 s.1) } :: C))
-              | none => pure (.ctx ({ vars := Eval.bindNamed [] (Eval.bindPos 1 s.1) } :: C))
+            if nm.2.length = 0 then pure (.ctx ({ vars := Eval.bindNamed [] (Eval.bindPos 1 s.1) } :: C))
             else if (s.1.take (nm.2.length + 1)).length != nm.2.length then .error (.base .value)
             else pure (.ctx ({ vars := Eval.bindNamed [] (nm.2.zip s.1) } :: C)))
       (do measureEach hi (nm.1.map (sizeofV c))
-          match (if s'.1.length < nm.2.length + 1 then s'.2 else none) with
+          match (if nm.2.length = 0 || s'.1.length < nm.2.length + 1 then s'.2 else none) with
           | some er => (.error er : RL ObjL)
           | none =>
-            if nm.2.length = 0 then
-              match s'.2 with
-              | some er =>
-                if isLim er then .error er else pure (.ctx ({ vars := Eval.bindNamed [] (Eval.bindPos 1 s'.1) } :: C))
-              | none => pure (.ctx ({ vars := Eval.bindNamed [] (Eval.bindPos 1 s'.1) } :: C))
+            if nm.2.length = 0 then pure (.ctx ({ vars := Eval.bindNamed [] (Eval.bindPos 1 s'.1) } :: C))
             else if (s'.1.take (nm.2.length + 1)).length != nm.2.length then .error (.base .value)
             else pure (.ctx ({ vars := Eval.bindNamed [] (nm.2.zip s'.1) } :: C))) := by
   apply RelR.bind (measureEach_rel h _); intro _ _ _
@@ -1414,31 +1406,29 @@ theorem unpackK_rel {lo hi : Lim} (h : Lim.le lo hi) (c : ECfg) (C : Ctx) (nm : 
   · simp only at h1 h3
     subst h1
     simp only
-    by_cases hlen : xs.length < nm.2.length + 1
-    · rw [if_pos hlen]; exact RelR.lim h2 _
-    · rw [if_neg hlen]
+    by_cases hc : (decide (nm.2.length = 0) || decide (xs.length < nm.2.length + 1)) = true
+    · rw [if_pos hc]; exact RelR.lim h2 _
+    · rw [if_neg hc]
       simp only
-      by_cases hn : nm.2.length = 0
-      · rw [if_pos hn]
-        simp only [h2, if_true]
-        exact RelR.lim h2 _
-      · rw [if_neg hn]
-        have hys : ¬ ys.length < nm.2.length + 1 := by
-          have := h3.length_le
-          omega
-        rw [if_neg hys]
-        simp only
-        rw [if_neg hn]
-        have e1 : (xs.take (nm.2.length + 1)).length = nm.2.length + 1 := by
-          rw [List.length_take]; omega
-        have e2 : (ys.take (nm.2.length + 1)).length = nm.2.length + 1 := by
-          rw [List.length_take]; omega
-        have b1 : ((xs.take (nm.2.length + 1)).length != nm.2.length) = true := by
-          rw [e1]; simp
-        have b2 : ((ys.take (nm.2.length + 1)).length != nm.2.length) = true := by
-          rw [e2]; simp
-        rw [if_pos b1, if_pos b2]
-        exact RelR.err _
+      have hn : ¬ nm.2.length = 0 := fun hn => hc (by simp [hn])
+      have hlen : ¬ xs.length < nm.2.length + 1 := fun hl => hc (by simp [hl])
+      have hys : ¬ ys.length < nm.2.length + 1 := by
+        have := h3.length_le
+        omega
+      have hc' : ¬ (decide (nm.2.length = 0) || decide (ys.length < nm.2.length + 1)) = true := by simp [hn, hys]
+      rw [if_neg hn, if_neg hc']
+      simp only
+      rw [if_neg hn]
+      have e1 : (xs.take (nm.2.length + 1)).length = nm.2.length + 1 := by
+        rw [List.length_take]; omega
+      have e2 : (ys.take (nm.2.length + 1)).length = nm.2.length + 1 := by
+        rw [List.length_take]; omega
+      have b1 : ((xs.take (nm.2.length + 1)).length != nm.2.length) = true := by
+        rw [e1]; simp
+      have b2 : ((ys.take (nm.2.length + 1)).length != nm.2.length) = true := by
+        rw [e2]; simp
+      rw [if_pos b1, if_pos b2]
+      exact RelR.err _
 
 theorem firstK_rel {s s' : VL × Option LErr} (hs : RelS s s') {d d' : ObjL} (hd : RelO d d') :
     RelR RelO
